@@ -15,7 +15,7 @@ def nontrivial(case):
 
 
 def correspond(ctx, C):
-    n = 400 if ctx.tier == "quick" else 20000
+    n = 4000 if ctx.tier == "quick" else 40000
     if ctx.search:
         n *= 3
     replay_file = None
